@@ -328,6 +328,8 @@ void labelFeatures(pbt::Case &c, const refxml::Features &f)
   if (f.decl) c.label("XML declaration");
   if (f.doctype) c.label("DOCTYPE");
   if (f.subset) c.label("DOCTYPE internal subset");
+  if (f.doctypeInnerQuotes) c.label("DOCTYPE literal/comment/PI holding the other quote character");
+  if (f.doctypeOddQuotes) c.label("DOCTYPE with an odd total of quote characters");
   if (f.prefixes) c.label("prefixed name");
   if (f.nonAscii) c.label("non-ASCII text");
   if (f.astral) c.label("astral code point");
@@ -925,6 +927,58 @@ PBT_REGRESSION(unbalanced_rejected)
                         "<a>x</ab>", "<ab>x</a>", "<a></a:a>", "<r><a><b><c></b></c></a></r>"})
   {
     expectRejected(c, t, "C14/accepted/mismatched-end-tag");
+    if (c.failed()) return;
+  }
+}
+
+PBT_REGRESSION(doctype_quote_characters)
+{
+  CpuGuard cpuGuard;
+  // well-formed DOCTYPEs whose literals / comments / PIs hold the *other* quote character (odd and
+  // even counts), followed by a body with quote characters: the DOCTYPE ends at its own '>' and
+  // every element behind it is reported. Expected element/text sequence written by hand.
+  c.describe("DOCTYPE literals, comments and PIs containing quote characters");
+  struct T { const char *doc; const char *doctype; std::vector<std::string> rest; };
+  const std::vector<T> cases = {
+    {"<!DOCTYPE r SYSTEM \"o'brien.dtd\"><r a=\"1\">it's<b/></r>", "r SYSTEM \"o'brien.dtd\"", {"S:r", "T:it's", "M:b", "E:r"}},
+    {"<!DOCTYPE r SYSTEM 'say \"hi.dtd'><r><a/>\"<b/></r>", "r SYSTEM 'say \"hi.dtd'", {"S:r", "M:a", "T:\"", "M:b", "E:r"}},
+    {"<!DOCTYPE r PUBLIC \"-//O'Reilly//DTD x//EN\" \"x.dtd\"><r><a k='v'/>'<b/></r>", "r PUBLIC \"-//O'Reilly//DTD x//EN\" \"x.dtd\"", {"S:r", "M:a", "T:'", "M:b", "E:r"}},
+    {"<!DOCTYPE r [<!ENTITY e 'say \"hi'>]><r><c k=\"v\"/></r>", "r [<!ENTITY e 'say \"hi'>]", {"S:r", "M:c", "E:r"}},
+    {"<!DOCTYPE r [<!ENTITY e \"it's > 'x\">]><r>t</r>", "r [<!ENTITY e \"it's > 'x\">]", {"S:r", "T:t", "E:r"}},
+    {"<!DOCTYPE r [<!-- don't -->]><r/>", "r [<!-- don't -->]", {"M:r"}},
+    {"<!DOCTYPE r [<!-- don't --><?p say \"hi?>]><r><x/>\"<y a='1'/></r>", "r [<!-- don't --><?p say \"hi?>]", {"S:r", "M:x", "T:\"", "M:y", "E:r"}},
+    {"<!DOCTYPE r [<!ENTITY a \"'\"><!ENTITY b '\"'>]><r><z/></r><!--'-->", "r [<!ENTITY a \"'\"><!ENTITY b '\"'>]", {"S:r", "M:z", "E:r", "C:'"}},
+  };
+  auto rep = reportTo(c);
+  for (auto &t : cases)
+  {
+    ExactBuf buf{std::string_view(t.doc)};
+    c14::PullRun pr = c14::runPull(buf.view(), ix::Options{});
+    if (!pr.ok) { c.fail("C14/construct/pull/rejected-valid", std::string(t.doc) + " rejected: " + pr.err); return; }
+    std::vector<std::string> got;
+    std::string dt;
+    for (auto &k : pr.toks)
+    {
+      switch (k.kind)
+      {
+      case ix::TokenKind::Doctype: dt = trim(k.text); break;
+      case ix::TokenKind::StartElement: got.push_back("S:" + std::string(k.name)); break;
+      case ix::TokenKind::EmptyElement: got.push_back("M:" + std::string(k.name)); break;
+      case ix::TokenKind::EndElement: got.push_back("E:" + std::string(k.name)); break;
+      case ix::TokenKind::Text: got.push_back("T:" + std::string(k.text)); break;
+      case ix::TokenKind::Comment: got.push_back("C:" + std::string(k.text)); break;
+      default: got.push_back("?"); break;
+      }
+    }
+    if (dt != t.doctype) { c.fail("C14/construct/pull/doctype", std::string(t.doc) + ": Doctype content reported as '" + pbt::show(dt, 120) + "'"); return; }
+    if (got != t.rest)
+    {
+      std::string g;
+      for (auto &x : got) g += x + " ";
+      c.fail("C14/construct/pull/kind-or-order", std::string(t.doc) + ": tokens behind the DOCTYPE are: " + pbt::show(g, 200));
+      return;
+    }
+    c14::checkArbitrary(buf.view(), ix::Options{}, rep); // SAX / DOM agreement, extents, balance
     if (c.failed()) return;
   }
 }
